@@ -3,6 +3,7 @@ Property C20 — copyright notices are built and merged without losing holders o
 -/
 import ReuseVerif.Lemmas.CopyrightMain
 import ReuseVerif.Lemmas.Merge
+import ReuseVerif.Lemmas.C20NoNotice
 
 namespace C20
 open Py Model Spec
@@ -159,6 +160,126 @@ theorem C20_make_then_parse_partial (endRe : Re) (x : Text × CPat × Text) (hx 
       some { pref := x.1, year := y.text, statement := h, whole := makeLineWith endRe h y.text x.1 } := by
   rw [C20_make_shape endRe h y x.1 hnot]
   exact C20_make_parse_partial endRe x hx y hy h hw hearlier
+
+/-! ### The read-back theorem without per-case hypotheses -/
+
+/-- **`earlierNone` is implied by a syntactic condition on the holder.**  If nowhere in the holder
+    a tag (`SPDX-FileCopyrightText:`, `SPDX-SnippetCopyrightText:`, `Copyright`, `©`) is followed
+    by white space (`noNoticeInside`, decidable, written without the reader's model), then for every
+    prefix of the table and every well-formed year form the hypothesis `hearlier` of
+    `C20_make_parse_partial` holds: no pattern of higher priority matches anywhere in the built
+    line.  (No tag of an earlier pattern can begin in front of the holder: outside the SPDX shapes
+    no prefix text contains an `S`, the sign shape contains no `C`, years are digits, blanks and
+    `-` — table obligation `prefixShapes_chars`.) -/
+theorem C20_earlier_none (endRe : Re) (x : Text × CPat × Text) (hx : x ∈ prefixShapes)
+    (y : YearForm) (hy : y.wf = true) (h : Text) (hn : noNoticeInside h = true) :
+    (match x.2.1 with
+      | .spdx => true
+      | .word => (searchPat endRe .spdx (builtLine x.1 y h)).isNone
+      | .sign => (searchPat endRe .spdx (builtLine x.1 y h)).isNone &&
+                 (searchPat endRe .word (builtLine x.1 y h)).isNone) = true := by
+  obtain ⟨h1, h2⟩ := earlier_none endRe x hx y hy h hn
+  cases hp : x.2.1 with
+  | spdx => rfl
+  | word => simp [h1 (by rw [hp]; decide)]
+  | sign => simp [h1 (by rw [hp]; decide), h2 hp]
+
+/-- The older holder predicate is (up to the line feed, which `make_copyright_line` rejects) the
+    narrower one: everything `C20_make_parse_partial` covered, `C20_make_parse` covers. -/
+theorem C20_wf_narrower (endRe : Re) (h : Text) (hw : WFHolder endRe h = true)
+    (hnl : h.contains '\n' = false) : WFHolderL endRe h = true := by
+  unfold WFHolder at hw
+  unfold WFHolderL
+  cases h with
+  | nil => cases hw
+  | cons c cs =>
+    simp only [Bool.and_eq_true, Bool.not_eq_true', bne_iff_ne, ne_eq] at hw
+    obtain ⟨⟨⟨⟨⟨⟨h1, h2⟩, h3⟩, h4⟩, _⟩, _⟩, h7⟩ := hw
+    have hp : parenStart (c :: cs) = false := by
+      have hc : ¬ '(' = c := fun e => h4 e.symm
+      simp [parenStart, hasTag, hc]
+    have hd : dashYear (c :: cs) = false := by
+      unfold dashYear
+      split
+      · rename_i r e; cases e; exact absurd rfl h3
+      · rfl
+    simp only [h1, h2, hp, hd, hnl, h7, Bool.not_false, Bool.and_self]
+
+/-- **Read-back theorem** (no per-case hypothesis).  For every entry of the generated prefix table
+    (all ten), every year form (none, `YYYY`, `YYYY-YYYY` with or without blanks around the dash)
+    and every holder that is well-formed (`WFHolderL`: non-empty, no line feed, first character
+    neither white space nor a digit, not `(C)`/`(c)` + white space, not `-YYYY` + white space, no
+    tail of comment terminators) and carries no notice inside (`noNoticeInside`), the tool's own
+    reader recognises the built notice, at the very start of the line, with exactly that prefix,
+    year and holder.  Holders that merely begin like a tag (`Copyrighted Works Ltd.`, `©tudio`,
+    `(C)ompany`, `-Free`) or end in one (`Acme Copyright`) are covered. -/
+theorem C20_make_parse (endRe : Re) (x : Text × CPat × Text) (hx : x ∈ prefixShapes)
+    (y : YearForm) (hy : y.wf = true) (h : Text) (hw : WFHolderL endRe h = true)
+    (hn : noNoticeInside h = true) :
+    searchLineWith endRe (builtLine x.1 y h) =
+      some { pref := x.1, year := y.text, statement := h, whole := builtLine x.1 y h } := by
+  obtain ⟨hstart, hblocks, hend⟩ := starts_of_wfL endRe h hw hn
+  have hshape : x.1 = headText x.2.1 ++ x.2.2 := by
+    have := C20_prefix_table.2
+    simp only [List.all_eq_true, beq_iff_eq] at this
+    exact this x hx
+  have hE := extPickedL_of_shape x hx
+  have hmatch : matchAt endRe x.2.1 (builtLine x.1 y h) =
+      some { pref := x.1, year := y.text, statement := h, whole := builtLine x.1 y h } := by
+    cases y with
+    | none =>
+      have := matchAt_builtL endRe x.2.1 x.2.2 h h none hE hblocks (eatYear_noneL hstart) hend (Nat.le_refl _)
+      simpa [builtLine, YearForm.text, hshape] using this
+    | single yy =>
+      have hyy : fourDigits yy = true := hy
+      have := matchAt_builtL endRe x.2.1 x.2.2 (yy ++ ' ' :: h) h (some yy) hE (blocks_of_year hyy _).toL
+        (eatYear_singleL hyy hstart) hend (by simp only [List.length_append, List.length_cons]; omega)
+      simpa [builtLine, YearForm.text, hshape, List.append_assoc] using this
+    | range y1 sp1 sp2 y2 =>
+      simp only [YearForm.wf, Bool.and_eq_true] at hy
+      have hr := eatRange_okL sp1 sp2 hy.1 hy.2 hstart
+      have hyear : eatYear (y1 ++ ((if sp1 then [' '] else []) ++ ('-' :: ((if sp2 then [' '] else []) ++ (y2 ++ ' ' :: h))))) =
+          (some (y1 ++ (if sp1 then [' '] else []) ++ ['-'] ++ (if sp2 then [' '] else []) ++ y2), h) := by
+        simp [eatYear, hr]
+      have := matchAt_builtL endRe x.2.1 x.2.2 _ h _ hE (blocks_of_year hy.1 _).toL hyear hend
+        (by simp only [List.length_append, List.length_cons]; omega)
+      simpa [builtLine, YearForm.text, hshape, List.append_assoc] using this
+  have hne : builtLine x.1 y h ≠ [] := by
+    unfold builtLine; cases y.text <;> simp
+  have hsearch := searchPat_of_matchAt endRe x.2.1 _ _ hne hmatch
+  obtain ⟨h1, h2⟩ := earlier_none endRe x hx y hy h hn
+  unfold searchLineWith
+  cases hp : x.2.1 with
+  | spdx => rw [hp] at hsearch; simp [hsearch]
+  | word =>
+    rw [hp] at hsearch
+    simp [h1 (by rw [hp]; decide), hsearch]
+  | sign =>
+    rw [hp] at hsearch
+    simp [h1 (by rw [hp]; decide), h2 hp, hsearch]
+
+/-- **Built and read back**: `make_copyright_line` does not take the verbatim branch for such a
+    holder (it is no notice), builds `prefix [year] holder`, and the reader returns exactly the
+    prefix, the year and the holder. -/
+theorem C20_make_then_parse (endRe : Re) (x : Text × CPat × Text) (hx : x ∈ prefixShapes)
+    (y : YearForm) (hy : y.wf = true) (h : Text) (hw : WFHolderL endRe h = true)
+    (hn : noNoticeInside h = true) :
+    makeLineWith endRe h y.text x.1 = builtLine x.1 y h ∧
+    searchLineWith endRe (makeLineWith endRe h y.text x.1) =
+      some { pref := x.1, year := y.text, statement := h, whole := makeLineWith endRe h y.text x.1 } := by
+  have hs := C20_make_shape endRe h y x.1 (searchLine_none_of_noNotice endRe h hn)
+  refine ⟨hs, ?_⟩
+  rw [hs]
+  exact C20_make_parse endRe x hx y hy h hw hn
+
+/-- the two predicates on holders the old theorem did not reach -/
+example : noNoticeInside "Copyrighted Works Ltd.".toList = true ∧ noNoticeInside "©tudio Ñandú GmbH".toList = true ∧
+    noNoticeInside "Acme Copyright".toList = true ∧ noNoticeInside "(C)ompany".toList = true ∧
+    noNoticeInside "Copyright Clearance Center".toList = false ∧ noNoticeInside "Jane © Doe".toList = false ∧
+    noNoticeInside "x SPDX-SnippetCopyrightText: y".toList = false := by decide
+example : parenStart "(C)ompany".toList = false ∧ parenStart "(c) Jane".toList = true ∧
+    dashYear "-Free Software Ltd".toList = false ∧ dashYear "-2020 Jane".toList = true ∧
+    dashYear "- 2020, Jane".toList = true ∧ dashYear "-2020Jane".toList = false := by decide
 
 /-! ### Merging -/
 
